@@ -642,7 +642,9 @@ mutual
             else match isPtr c.env m.source with
               | some e => if (isStruct c.env e).isSome then pure (e, true) else fail .updateSourceShape
               | none => fail .updateSourceShape
-          let cv ← structAssign c fuel cx false false srcStruct te []
+          -- a pointer source is dereferenced for the struct builder; `map . X` sees `(*source)` and a function taking
+          -- the pointer gets the pointer (JenID.ImplicitPointer / ParentPointer)
+          let cv ← structAssign c fuel cx false srcIsPtr srcStruct te []
           pure (Body.update srcIsPtr cv)
         else
           match indexGet (extendIndex c) m.source m.target available with
